@@ -325,7 +325,7 @@ def check_callable(item, acc):
 CLASS_STYLES = ["plain", "slots", "dataclass", "namedtuple", "no_init", "user_new", "init_args", "factory_new", "factory_new_init", "setstate", "setstate_assign", "abstract_members", "getattr_fallback", "descriptors"]
 CHILDREN = [None, "plain_noinit", "plain_init_args", "dbc_noinit", "dbc_init_args", "dbc_new", "plain_new",
             "plain_grandchild", "dbc_grandchild", "plain_mixin_init", "plain_dict_base", "plain_exception_base",
-            "plain_prop_over_attr", "dbc_prop_over_attr"]  # constructor inherited by the class that is instantiated
+            "plain_prop_over_attr", "dbc_prop_over_attr", "plain_method_over_descriptor", "dbc_method_over_descriptor"]  # constructor inherited by the class that is instantiated
 
 
 def render_class(style, inv, child, dbc, contracts):
@@ -435,6 +435,11 @@ def render_class(style, inv, child, dbc, contracts):
             if style != "no_init":
                 return None
             w.append("    @property\n    def v(self):\n        return 5\n    @property\n    def swap(self):\n        return 'swap as property'\n")
+        elif child.endswith("method_over_descriptor"):
+            # the child overrides, with a method (and with a property), members which the base provides as descriptors available on instances only
+            if style != "descriptors":
+                return None
+            w.append("    def d(self):\n        return 'd as method'\n")
         elif child.endswith("mixin_init"):
             if style in ("namedtuple", "dataclass", "slots"):
                 return None
@@ -545,6 +550,9 @@ def class_script(ns, style, child):
         return obs
     if child and child.endswith("prop_over_attr"):
         rec("Child().v", lambda: (ns["Child"]().v, ns["Child"]().swap, ns["Child"]().pub(1)))
+        return obs
+    if child and child.endswith("method_over_descriptor"):
+        rec("Child().d()", lambda: (ns["Child"]().d(), ns["Child"]().pub(1)))
         return obs
     if child and child.endswith("mixin_init"):
         rec("Mixed(3)", lambda: (ns["Child"](3).z, ns["Child"](3).v))
